@@ -19,7 +19,24 @@ KINDS = ("class", "function", "argparse_function")
 NAMES = {"class": "ConfigClass", "function": "train", "argparse_function": "set_cli_args"}
 BEFORE = ["import os\n\nCONSTANT_A = 1\n", "", "def helper_before(q, r=2):\n    return q\n", "class Unrelated(object):\n    z: int = 1\n",
           "from typing import List, Optional\nfrom upstream.config import ConfigClass as UpstreamConfigClass, train as upstream_train\n"]
-AFTER = ["", "\n\ndef helper_after(k):\n    return k\n", "\n\nCONSTANT_Z = 26\n"]
+AFTER = ["", "\n\ndef helper_after(k):\n    return k\n", "\n\nCONSTANT_Z = 26\n", "\n\n{name} = register({name})\n"]
+
+
+def drop_docs(ir):
+    ir = copy.deepcopy(ir)
+    ir["doc"] = ""
+    for p in ir["params"].values():
+        p.pop("doc", None)
+    return ir
+
+
+def prefix_of(ir):
+    """the same interface without its last parameter (None when it has only one)"""
+    if len(ir["params"]) < 2:
+        return None
+    out = copy.deepcopy(ir)
+    out["params"].popitem()
+    return out
 
 
 def gen_ir(rng):
@@ -105,8 +122,18 @@ def run_case(c):
             if st == "empty":
                 open(files[k], "w").write("")
                 continue
-            body = emit_src(k, c["gold"] if (st == "equal" or k == c["truth"]) else c["irs"][k])
-            open(files[k], "w").write(c["before"][k] + ("\n\n" if c["before"][k] else "") + body + "\n" + c["after"][k])
+            if st == "prefix":
+                # the truth as its own format reads it, minus the last parameter: what an earlier sync would have left behind
+                try:
+                    as_read = T.hop({"class": "class", "function": "function", "argparse_function": "argparse"}[c["truth"]], c["gold"], {})[0]
+                    as_read["name"] = c["gold"].get("name")
+                except Exception:  # noqa
+                    as_read = c["gold"]
+                src_ir = prefix_of(as_read) or c["irs"][k]
+            else:
+                src_ir = c["gold"] if (st == "equal" or k == c["truth"]) else c["irs"][k]
+            body = emit_src(k, src_ir)
+            open(files[k], "w").write(c["before"][k] + ("\n\n" if c["before"][k] else "") + body + "\n" + c["after"][k].replace("{name}", NAMES[k]))
         gold_src_before = open(files[c["truth"]]).read()
         gold_irs, _t = parse_target(c["truth"], gold_src_before)
         if not gold_irs:
@@ -156,6 +183,13 @@ def run_case(c):
         for k in KINDS:
             src = first[k]
             tag = "%s-target/truth-%s/%s" % (k, c["truth"], c["states"][k])
+            rebound = "{name}" in c["after"][k] and k != "class" and c["states"][k] not in ("missing", "empty")
+            if rebound:
+                # `train = register(train)` after a function / argparse target carries the same _location as the def: the def is left
+                # untouched (known) and the ASSIGNMENT is replaced by the truth.  One class; outside the decision-table model.
+                if pre[k] is not None and src is not None and pre[k]["src"] != src:
+                    res["problems"].append(("rebinding-assignment-replaced-by-truth/%s-target" % k, {"after": src[-300:]}))
+                continue
             if src is None:
                 res["problems"].append(("target-file-not-created/" + tag, {}))
                 continue
@@ -170,7 +204,7 @@ def run_case(c):
                 if len(tgts) > 1:
                     res["problems"].append(("target-duplicated/" + tag, {"count": len(tgts)}))
                 diffs = same_iface(k, tgts[-1][0], gold, c["truth"]) if not tgts[-1][0].get("unparsable") else [("unparsable", {})]
-                if diffs and pre[k] is not None and pre[k]["src"] == src and c["states"][k] == "different":
+                if diffs and pre[k] is not None and pre[k]["src"] == src and c["states"][k] in ("different", "prefix"):
                     # the file was not touched at all although its target differs from the truth
                     res["problems"].append(("target-left-untouched/%s-target" % k, {"first_difference": diffs[0][0]}))
                 else:
@@ -192,6 +226,8 @@ def run_case(c):
             res["model_obs"].append(obs)
         for r in range(1, len(snaps)):
             for k in KINDS:
+                if "{name}" in c["after"][k] and k != "class":
+                    continue
                 if snaps[r][k] != snaps[r - 1][k]:
                     res["problems"].append(("run-%d-changed-file/%s-target/truth-%s/%s" % (r + 1, k, c["truth"], c["states"][k]),
                                             {"len_before": len(snaps[r - 1][k] or ""), "len_after": len(snaps[r][k] or "")}))
@@ -204,8 +240,11 @@ def gen_case(rng):
     truth = rng.choice(KINDS)
     states = {}
     for k in KINDS:
-        states[k] = "different" if k == truth else rng.choice(["different", "different", "equal", "missing", "empty"])
-    return {"truth": truth, "states": states, "gold": gen_ir(rng), "irs": {k: gen_ir(rng) for k in KINDS},
+        states[k] = "different" if k == truth else rng.choice(["different", "different", "equal", "missing", "empty", "prefix"])
+    gold = gen_ir(rng)
+    if rng.random() < 0.25:
+        gold = drop_docs(gold)      # a truth without any prose: the emitted class then has no docstring
+    return {"truth": truth, "states": states, "gold": gold, "irs": {k: gen_ir(rng) for k in KINDS},
             "before": {k: rng.choice(BEFORE) for k in KINDS}, "after": {k: rng.choice(AFTER) for k in KINDS}, "runs": rng.randint(1, 3)}
 
 
@@ -239,6 +278,16 @@ def worker(batch):
 def collect(ctx, n, _unused=0):
     rng = ctx.rng
     cases = [gen_case(rng) for _ in range(n)]
+    # corpus: a truth without any prose and a class target that already holds all but the last parameter
+    for truth in KINDS:
+        g = drop_docs(gen_ir(rng))
+        while len(g["params"]) < 3:
+            g = drop_docs(gen_ir(rng))
+        st = {k: ("different" if k == truth else "missing") for k in KINDS}
+        if truth != "class":
+            st["class"] = "prefix"
+        cases.append({"truth": truth, "states": st, "gold": g, "irs": {k: gen_ir(rng) for k in KINDS},
+                      "before": {k: BEFORE[0] for k in KINDS}, "after": {k: AFTER[1] for k in KINDS}, "runs": 2})
     agg = {"n": 0, "ran": 0, "files": 0}
     items, corr = [], []
     for r in run_cases(worker, [cases[i:i + 4] for i in range(0, len(cases), 4)], chunk=1):
